@@ -540,6 +540,18 @@ func corpus(out *cq.Out) {
 		{kind: "stop", c: d}, {kind: "start", c: d}, {kind: "addpart", c: d, pid: 101, pname: "p1"},
 		feed(d, 0, 103, 106, dp(2, 105)), feed(d, 1, 300, 303, ins(3, 302)), feed(d, 1, 303, 305, dp(4, 304))},
 		"corpus: stop, start again, partition registered again and dropped")
+	// a partition dropped and created again under its name: the new one is another downstream partition (the downstream has
+	// carried out the drop, the create request makes a new one, and the first insert may come before the handler has been told)
+	rp := &coll{id: 1, tid: 9001, name: "c1", src: [][2]string{{"src-dml_0_1v0", "src-dml_0"}}, tgt: [][2]string{{"tgt-dml_0_9001v0", "tgt-dml_0"}},
+		parts: map[string]int64{"_default": 900100, "p1": 900101}}
+	insP := func(id uint64, part int64, ts uint64) smsg {
+		return smsg{kind: "insert", id: id, coll: 1, part: part, pname: "p1", ts: ts, rows: 1}
+	}
+	again := feed(rp, 0, 106, 113, insP(4, 102, 112))
+	again.answers = []map[string]int64{{"_default": 900100, "p1": 900102}}
+	runCase(out, 1, []label{{kind: "start", c: rp}, {kind: "addpart", c: rp, pid: 101, pname: "p1"}, feed(rp, 0, 100, 103, insP(1, 101, 102)),
+		feed(rp, 0, 103, 106, smsg{kind: "droppart", id: 2, coll: 1, part: 101, pname: "p1", ts: 105}),
+		{kind: "addpart", c: rp, pid: 102, pname: "p1"}, again}, "corpus: a partition dropped and created again under its name")
 	// an insert into a partition the downstream never learns: the refresh fails, the pack is an error, the process survives
 	e := &coll{id: 1, tid: 9001, name: "c1", src: [][2]string{{"src-dml_0_1v0", "src-dml_0"}}, tgt: [][2]string{{"tgt-dml_0_9001v0", "tgt-dml_0"}},
 		parts: map[string]int64{"_default": 900100}}
